@@ -3,3 +3,5 @@ pub mod codec;
 pub mod c06;
 pub mod c16;
 pub mod amf0;
+pub mod c11;
+pub mod c13;
